@@ -9,9 +9,12 @@ The network handed to tangermeme is an exact-integer, position-sensitive encoder
 the window has a score of its own, hence every y_hat entry names the mutant that was evaluated.
 The same integers instantiate the Section variable `h` of the Coq development (Spec.h_of).
 """
+import contextlib
+import io
 import itertools
 from fractions import Fraction
 
+import numpy
 import torch
 
 from . import common as C
@@ -21,20 +24,33 @@ IMPORTS = ['C09.Model', 'C09.Spec']
 CASE_TYPE = 'case'
 CHECK = 'check_case'
 SHARD = 60
-RULE = ('every window 0<=start<end<=L and every (start, end=-1) for L<=8 (quick: L<=6) x alphabets 2-5, '
-        'tensor and tuple outputs, raw and attribution outputs; every batch_size 1..A*W+1 on small '
-        'configurations; seeded random cases with A 2-5, L 1-30, 1-3 examples, trailing output '
-        'dimensions (), (T), (T,R), (T,R1,R2), 1-3 output tensors, per-example args (1-2 tensors, '
-        '1-3 dims), int/negative-int/slice/None targets, hypothetical on/off, X dtype '
-        'float32/float64/int8, all-zero columns; plus a small out-of-scope stream (negative start, '
-        'end > L, end <= start, end < -1, batch_size <= 0, args of the wrong length, attribution of a '
-        'tuple model) on which only model agreement is checked; non-trivial = accepted in-scope call '
-        'with A != end-start (a position-major reading of the mutant list cannot have the right shape '
-        'by accident) and more than one mutant')
+RULE = ('every window 0<=start<end<=L for L<=8 (quick: L<=6), end given positively or as the equivalent '
+        'negative end (L+1+end), and every (start, end=-1), x alphabets 2-5, tensor and tuple outputs, raw and '
+        'attribution outputs; every batch_size 1..A*W+2 on small configurations; seeded random cases with '
+        'A 2-5, L 1-30, 1-3 examples, trailing output dimensions (), (T), (T,R), (T,R1,R2), 1-3 output '
+        'tensors, per-example args (1-3 tensors, 1-3 dims), int/negative-int/slice/None targets, '
+        'hypothetical on/off, X dtypes, all-zero columns; an input-form stream (each non-default form one '
+        'at a time and mixed: numpy int64/int32 for start/end/batch_size/target, args as list, arg dtypes '
+        'int32/int64/float32/float64 mixed in one call, forward(X, a0=None, ...) with defaults vs *args vs '
+        'required names, list vs tuple outputs, parameter dtype float32/float64/no parameters, model left '
+        'in training mode by the caller, non-contiguous X, torch.device object, verbose=True, integer '
+        'hypothetical, slices with None / negative bounds / steps); a boundary stream (W=1 at both ends, '
+        'end=-L, batch_size 1 / n / A*W-1 / A*W / A*W+1 / 10^6, 32/33/65 examples so that y0 is predicted '
+        'in several batches, T=R=K=1, first/last/negative targets, one-row and whole slices, steps >= T); '
+        'a multi-call stream (a first call in the same process on the SAME model / X / args objects, then '
+        'the checked call with ONE thing changed: alphabet, length, window, batch size, examples, arg '
+        'values, args on/off, target, hypothetical, raw/attribution, tensor/tuple, trailing shape, weights, '
+        'X content, X dtype); plus an out-of-scope stream (negative start, end > L, empty window, end below '
+        '-L-1, batch_size <= 0, args of the wrong length, attribution of a tuple model) on which only model '
+        'agreement is checked. After every call X and args must be bit-identical to what was passed. '
+        'non-trivial = accepted in-scope call with A != end-start (a position-major reading of the mutant '
+        'list cannot have the right shape by accident) and more than one mutant')
 EXHAUSTIVE = {'quick': False, 'thorough': False}
 TRUSTED = ['the encoder network (harness/c09.py: Enc) computes in float64 on integers below 2^53, hence exactly',
            'attribution outputs are float64; they are converted with fractions.Fraction (exact) and compared in Coq '
-           'with the absolute tolerance 2^-16 carried by the call (|values| < 2^27)']
+           'with the absolute tolerance 2^-16 carried by the call (|values| < 2^27)',
+           'python slice targets are canonicalised with slice.indices(T) before they are written as TSlice lo hi step',
+           'the caller-data check (X, args unchanged) is torch.equal + dtype on clones taken before the call']
 ASSUMPTIONS = ['the user model acts example-wise in eval mode (Section variable h; exercised by every case)',
                'torch reshape/stack/cat are row-major (exercised by every case)']
 TOL = (1, 65536)
@@ -43,28 +59,65 @@ TOL = (1, 65536)
 # ----------------------------------------------------------------------------------------
 # the network
 
+TRAIN_SHIFT = 1000003
+
+
+class Shift(torch.nn.Module):
+    """a child whose output depends on the training flag (as dropout / batch norm would)"""
+
+    def forward(self, s):
+        return s + TRAIN_SHIFT if self.training else s
+
+
 class Enc(torch.nn.Module):
-    def __init__(self, base, acoef, comps, shapes, tup):
+    """pdtype: dtype of the only parameter (predict casts X to it) or 'none' (no parameter: predict keeps
+    X's dtype).  fwd: 'star' forward(X, *args) | 'defaults' forward(X, a0=None, a1=None, a2=None) |
+    'named' forward(X, a0[, a1[, a2]]) with exactly the call's number of extra inputs."""
+
+    def __init__(self, base, acoef, comps, shapes, tup, pdtype='float64', fwd='star', outform='tuple', nargs=0):
         super().__init__()
-        # base[p][c] -> (A, L)
-        self.base = torch.nn.Parameter(torch.tensor(base, dtype=torch.float64).T.contiguous(),
-                                       requires_grad=False)
+        if pdtype != 'none':
+            self.steer = torch.nn.Parameter(torch.zeros(1, dtype=getattr(torch, pdtype)), requires_grad=False)
+        self.shift = Shift()
+        self.register_buffer('base', torch.zeros(len(base[0]) if base else 0, len(base), dtype=torch.float64))
+        self.shapes = shapes
+        self.tup = tup
+        self.fwd = fwd
+        self.outform = outform
+        self.nargs = nargs
+        self.set_weights(base, acoef, comps)
+
+    def set_weights(self, base, acoef, comps):
+        with torch.no_grad():
+            self.base.copy_(torch.tensor(base, dtype=torch.float64).T.reshape(self.base.shape))   # base[p][c] -> (A, L)
         self.acoef = torch.tensor(acoef, dtype=torch.float64)
         self.M = [torch.tensor([[mb[0] for mb in row] for row in comp], dtype=torch.float64).reshape(-1)
                   for comp in comps]
         self.B = [torch.tensor([[mb[1] for mb in row] for row in comp], dtype=torch.float64).reshape(-1)
                   for comp in comps]
-        self.shapes = shapes
-        self.tup = tup
 
-    def forward(self, X, *args):
+    def signature(self):
+        return (tuple(self.base.shape), tuple(map(tuple, self.shapes)), self.tup, self.fwd, self.outform,
+                self.nargs, hasattr(self, 'steer') and str(self.steer.dtype))
+
+    def forward(self, X, *args, **kw):
+        if self.fwd == 'defaults':
+            if len(args) > 3 or set(kw) - {'a0', 'a1', 'a2'}:
+                raise TypeError('unexpected arguments')
+            args = [a for a in list(args) + [kw.get('a%d' % i) for i in range(len(args), 3)] if a is not None]
+        elif self.fwd == 'named':
+            if len(args) != self.nargs or kw:
+                raise TypeError('forward() takes exactly %d extra inputs' % self.nargs)
         s = (X.double() * self.base[None]).sum(dim=(1, 2))
         if args:
             flat = torch.cat([a.reshape(a.shape[0], -1).double() for a in args], dim=1)
             s = s + flat @ self.acoef
+        s = self.shift(s)
         outs = [(s[:, None] * M[None] + B[None]).reshape(X.shape[0], *shape)
                 for M, B, shape in zip(self.M, self.B, self.shapes)]
-        return tuple(outs) if self.tup else outs[0]
+        if not self.tup:
+            return outs[0]
+        return list(outs) if self.outform == 'list' else tuple(outs)
 
 
 def tr_of(shape):
@@ -75,14 +128,20 @@ def tr_of(shape):
     return T, R
 
 
+XDT = {'float32': torch.float32, 'float64': torch.float64, 'float16': torch.float16, 'int8': torch.int8,
+       'uint8': torch.uint8, 'int64': torch.int64, 'bool': torch.bool}
+ADT = {'int64': torch.int64, 'int32': torch.int32, 'float64': torch.float64, 'float32': torch.float32}
+
+
 def build_X(inp):
     A, L = inp['A'], inp['L']
-    dt = {'float32': torch.float32, 'float64': torch.float64, 'int8': torch.int8}[inp.get('xdtype', 'float32')]
-    X = torch.zeros(len(inp['X']), A, L, dtype=dt)
+    X = torch.zeros(len(inp['X']), A, L, dtype=XDT[inp.get('xdtype', 'float32')])
     for i, s in enumerate(inp['X']):
         for p, k in enumerate(s):
             if k >= 0:
                 X[i, k, p] = 1
+    if inp.get('xview') == 'permuted':          # same values, non-contiguous memory
+        X = X.permute(0, 2, 1).contiguous().permute(0, 2, 1)
     return X
 
 
@@ -91,22 +150,43 @@ def build_args(inp):
         return None
     out = []
     for a in inp['args']:
-        dt = torch.float64 if a.get('dtype') == 'float64' else torch.int64
-        out.append(torch.tensor(a['vals'], dtype=dt).reshape(len(a['vals']), *a['shape']))
-    return tuple(out)
+        out.append(torch.tensor(a['vals'], dtype=ADT[a.get('dtype', 'int64')]).reshape(len(a['vals']), *a['shape']))
+    return out
 
 
-def py_target(t):
+def as_int(v, itype):
+    if v is None or itype in (None, 'int'):
+        return v
+    return numpy.int64(v) if itype == 'np64' else numpy.int32(v)
+
+
+def py_target(t, itype=None):
+    if t is None:
+        return None
+    if isinstance(t, int):
+        return as_int(t, itype)
+    if isinstance(t, dict):
+        return slice(*[as_int(v, itype) for v in t['slice']])
+    return slice(as_int(t[0], itype), as_int(t[1], itype))
+
+
+def canon_target(t, T):
+    """None | int | (lo, hi, step) as Python's own slice.indices gives them for T targets"""
     if t is None or isinstance(t, int):
         return t
-    return slice(t[0], t[1])
+    sl = slice(*t['slice']) if isinstance(t, dict) else slice(t[0], t[1])
+    return sl.indices(T)
 
 
-def to_TR(y, nd):
-    """tensor (lead..., trailing nd dims) -> nested int lists (lead..., T, R); None if not integral"""
+def to_TR(y, shape):
+    """tensor (lead..., *shape) -> nested int lists (lead..., T, R); None if the trailing dimensions are
+    not exactly the network's or a value is not an integer"""
+    nd = len(shape)
     y = y.detach().cpu()
     lead = list(y.shape[:y.dim() - nd])
     tshape = list(y.shape[y.dim() - nd:])
+    if y.dim() < nd or tshape != list(shape):
+        return None, lead
     T, R = tr_of(tshape)
     y = y.reshape(*lead, T, R).double()
     if not bool(torch.isfinite(y).all()) or not torch.equal(y, y.round()):
@@ -114,47 +194,114 @@ def to_TR(y, nd):
     return y.to(torch.int64).tolist(), lead
 
 
-def run_impl(inp):
+def objects_for(inp, pool):
+    """model / X / args for one call.  Objects of an earlier call of the same case (prelude) are REUSED and
+    updated in place whenever their shapes and dtypes allow, so the calls of a sequence see the same
+    model, tensor and argument objects with one thing changed."""
+    tup = inp['tuple'] is not None
+    nargs = 0 if inp.get('args') is None else len(inp['args'])
+    model = Enc(inp['base'], inp['acoef'], inp['comps'], inp['shapes'], tup, pdtype=inp.get('pdtype', 'float64'),
+                fwd=inp.get('fwd', 'star'), outform=inp.get('outform', 'tuple'), nargs=nargs)
+    old = pool.get('model')
+    if old is not None and old.signature() == model.signature():
+        old.set_weights(inp['base'], inp['acoef'], inp['comps'])
+        model = old
+    pool['model'] = model
+    X = build_X(inp)
+    oX = pool.get('X')
+    if oX is not None and oX.shape == X.shape and oX.dtype == X.dtype and inp.get('xview') != 'permuted':
+        oX.copy_(X)
+        X = oX
+    pool['X'] = X
+    args = build_args(inp)
+    oa = pool.get('args')
+    if args is not None and oa is not None and len(oa) == len(args) and \
+            all(a.shape == b.shape and a.dtype == b.dtype for a, b in zip(oa, args)):
+        for a, b in zip(oa, args):
+            a.copy_(b)
+        args = oa
+    if args is not None:
+        pool['args'] = args
+    return model, X, args
+
+
+def call_impl(inp, pool):
     from tangermeme.ism import saturation_mutagenesis
+    model, X, args = objects_for(inp, pool)
+    if inp.get('train'):
+        model.train()
+    itype = inp.get('itype')
+    if args is not None:
+        args_in = list(args) if inp.get('args_form') == 'list' else tuple(args)
+    else:
+        args_in = None
+    X0 = X.clone()
+    a0 = None if args is None else [a.clone() for a in args]
+    kw = {}
+    if inp['bs'] is not None:
+        kw['batch_size'] = as_int(inp['bs'], itype)
+    if inp['end'] != 'default':
+        kw['end'] = as_int(inp['end'], itype)
+    if inp['start'] != 'default':
+        kw['start'] = as_int(inp['start'], itype)
+    if inp.get('verbose'):
+        kw['verbose'] = True
+    hyp = bool(inp.get('hyp'))
+    if inp.get('hyp_form') == 'int':
+        hyp = int(hyp)
+    device = torch.device('cpu') if inp.get('device') == 'obj' else 'cpu'
     try:
-        tup = inp['tuple'] is not None
-        model = Enc(inp['base'], inp['acoef'], inp['comps'], inp['shapes'], tup)
-        X = build_X(inp)
-        args = build_args(inp)
-        raw = inp['mode'] == 'raw'
-        kw = {}
-        if inp['bs'] is not None:
-            kw['batch_size'] = inp['bs']
-        if inp['end'] != 'default':
-            kw['end'] = inp['end']
-        if inp['start'] != 'default':
-            kw['start'] = inp['start']
-        res = saturation_mutagenesis(model, X, args=args, target=py_target(inp.get('target')),
-                                     hypothetical=bool(inp.get('hyp')), raw_outputs=raw, device='cpu', **kw)
+        with contextlib.redirect_stderr(io.StringIO()):      # verbose=True draws progress bars
+            res = saturation_mutagenesis(model, X, args=args_in, target=py_target(inp.get('target'), itype),
+                                         hypothetical=hyp, raw_outputs=(inp['mode'] == 'raw'), device=device, **kw)
+    finally:
+        same = X.dtype == X0.dtype and X.shape == X0.shape and bool(torch.equal(X, X0))
+        if args is not None:
+            same = same and len(args_in) == len(a0) and all(
+                a is b and a.dtype == c.dtype and a.shape == c.shape and bool(torch.equal(a, c))
+                for a, b, c in zip(args_in, args, a0))
+        pool['unchanged'] = same
+    return res
+
+
+def run_impl(inp):
+    pool = {}
+    for step in inp.get('prelude') or []:         # earlier calls in the same process, results discarded
+        try:
+            call_impl(step, pool)
+        except Exception:
+            pass
+    pool.pop('unchanged', None)
+    tup = inp['tuple'] is not None
+    raw = inp['mode'] == 'raw'
+    try:
+        res = call_impl(inp, pool)
     except Exception as e:
-        return {'ok': False, 'err': type(e).__name__}
+        return {'ok': False, 'err': type(e).__name__, 'unchanged': bool(pool.get('unchanged', True))}
+    unchanged = bool(pool.get('unchanged', True))
     try:
         if raw:
             y0, yh = res
             if not tup:
                 y0, yh = [y0], [yh]
+            if len(y0) != len(inp['shapes']) or len(yh) != len(inp['shapes']):
+                return {'ok': True, 'malformed': True, 'unchanged': unchanged}
             Y0, YH = [], []
             for k in range(len(y0)):
-                nd = len(inp['shapes'][k])
-                a, lead0 = to_TR(y0[k], nd)
-                b, lead1 = to_TR(yh[k], nd)
+                a, lead0 = to_TR(y0[k], inp['shapes'][k])
+                b, lead1 = to_TR(yh[k], inp['shapes'][k])
                 if a is None or b is None or len(lead0) != 1 or len(lead1) != 3:
-                    return {'ok': True, 'malformed': True}
+                    return {'ok': True, 'malformed': True, 'unchanged': unchanged}
                 Y0.append(a)
                 YH.append(b)
-            return {'ok': True, 'y0': Y0, 'yh': YH}
+            return {'ok': True, 'y0': Y0, 'yh': YH, 'unchanged': unchanged}
         a = res.detach().cpu().double()
         if a.dim() != 3 or not bool(torch.isfinite(a).all()):
-            return {'ok': True, 'malformed': True}
+            return {'ok': True, 'malformed': True, 'unchanged': unchanged}
         fr = [[[list(Fraction(v).as_integer_ratio()) for v in row] for row in ex] for ex in a.tolist()]
-        return {'ok': True, 'attr': fr}
+        return {'ok': True, 'attr': fr, 'unchanged': unchanged}
     except Exception as e:
-        return {'ok': True, 'malformed': True, 'err': repr(e)[:200]}
+        return {'ok': True, 'malformed': True, 'err': repr(e)[:200], 'unchanged': unchanged}
 
 
 # ----------------------------------------------------------------------------------------
@@ -189,12 +336,13 @@ def _flatten(v):
         yield int(v)
 
 
-def target_lit(t):
+def target_lit(t, T):
+    t = canon_target(t, T)
     if t is None:
         return 'TNone'
     if isinstance(t, int):
         return '(TInt %s)' % C.z(t)
-    return '(TSlice %s %s)' % (C.z(t[0]), C.z(t[1]))
+    return '(TSlice %s %s %s)' % (C.z(t[0]), C.z(t[1]), C.z(t[2]))
 
 
 def nest(x, depth, leaf):
@@ -215,13 +363,13 @@ def coq_case(inp, out):
     end = -1 if inp['end'] == 'default' else inp['end']
     bs = 32 if inp['bs'] is None else inp['bs']
     tup = 'None' if inp['tuple'] is None else '(Some %s)' % C.nat(inp['tuple'])
+    T, R = tr_of(inp['shapes'][0])
     if inp['mode'] == 'raw':
         mode = 'MRaw'
         tol = '(mkq 0 1)'
     else:
-        mode = '(MAttr %s %s)' % (target_lit(inp.get('target')), C.boolean(inp.get('hyp')))
+        mode = '(MAttr %s %s)' % (target_lit(inp.get('target'), T), C.boolean(inp.get('hyp')))
         tol = '(mkq %d %d)' % TOL
-    T, R = tr_of(inp['shapes'][0])
     call = '(Call %s %s %s %s %s %s %s %s %s %s %s %s)' % (
         C.nat(A), C.nat(L), X, args, C.z(start), C.z(end), C.z(bs), tup, mode, C.nat(T), C.nat(R), tol)
     if not out['ok']:
@@ -232,7 +380,7 @@ def coq_case(inp, out):
         o = '(ObsAttr %s)' % nest(out['attr'], 3, lambda v: '(mkq %s %d)' % (C.z(v[0]), v[1]))
     else:
         o = '(ObsRaw %s %s)' % (nest(out['y0'], 4, C.z), nest(out['yh'], 6, C.z))
-    return '(%s, %s, %s)' % (d, call, o)
+    return '(%s, %s, %s, %s)' % (d, call, o, C.boolean(out.get('unchanged', True)))
 
 
 # ----------------------------------------------------------------------------------------
@@ -243,11 +391,9 @@ def window_of(inp):
     L = inp['L']
     s = 0 if inp['start'] == 'default' else inp['start']
     e = -1 if inp['end'] == 'default' else inp['end']
-    if s < 0:
-        return None
-    if e >= 0:
-        return (s, e) if s < e <= L else None
-    return (s, L) if (e == -1 and s < L) else None
+    if e < 0:
+        e = L + 1 + e          # the convention under which the default end=-1 is the whole sequence
+    return (s, e) if 0 <= s < e <= L else None
 
 
 def in_scope(inp):
@@ -268,7 +414,7 @@ def nontrivial(inp, out):
 
 
 def hist_key(inp, out):
-    kind = inp['mode'] + ('/tuple' if inp['tuple'] is not None else '/tensor')
+    kind = inp.get('stream', 'corpus') + ':' + inp['mode'] + ('/tuple' if inp['tuple'] is not None else '/tensor')
     if not in_scope(inp):
         kind += '/out-of-scope'
     return kind + ('/ok' if out['ok'] else '/raise')
@@ -329,22 +475,18 @@ def rand_shape(rng, attr):
     return [rng.randint(1, 3), rng.randint(1, 2), 2]
 
 
-def rand_args(rng, n, bad_len=False):
-    k = rng.choice([1, 1, 2])
+def rand_args(rng, n, bad_len=False, k=None, dtypes=('int64', 'float64')):
+    k = k or rng.choice([1, 1, 2, 3])
     out = []
     for _ in range(k):
         shape = rng.choice([[], [1], [2], [3], [2, 2]])
         m = n + 1 if bad_len else n
-        cnt = 1
-        for d in shape:
-            cnt *= d
 
         def mk(shape):
             if not shape:
                 return rng.randint(-99, 99)
             return [mk(shape[1:]) for _ in range(shape[0])]
-        out.append({'shape': shape, 'vals': [mk(shape) for _ in range(m)],
-                    'dtype': rng.choice(['int64', 'float64'])})
+        out.append({'shape': shape, 'vals': [mk(shape) for _ in range(m)], 'dtype': rng.choice(list(dtypes))})
     return out
 
 
@@ -360,18 +502,39 @@ def nflat(args):
     return tot
 
 
-def rand_target(rng, T):
+def rand_target(rng, T, forms=False):
+    """None | int (also negative) | [lo, hi] | {'slice': [a, b, c]} with None / negative bounds and steps;
+    never an empty selection"""
     r = rng.random()
-    if r < 0.3:
+    if r < 0.25:
         return None
-    if r < 0.65:
+    if r < 0.55:
         return rng.randrange(-T, T)
     lo = rng.randrange(T)
-    return [lo, rng.randint(lo + 1, T)]
+    hi = rng.randint(lo + 1, T)
+    if not forms or r < 0.7:
+        return [lo, hi]
+    a = rng.choice([lo, lo - T, None if lo == 0 else lo])
+    b = rng.choice([hi, None if hi == T else hi, hi - T if hi < T else hi])
+    c = rng.choice([None, 1, 2, 3, T, T + 1])
+    return {'slice': [a, b, c]}
+
+
+FORM_DEFAULTS = {'itype': 'int', 'args_form': 'tuple', 'fwd': 'star', 'outform': 'tuple', 'pdtype': 'float64',
+                 'train': False, 'xview': 'contig', 'device': 'str', 'verbose': False, 'hyp_form': 'bool'}
+FORM_VALUES = {'itype': ['np64', 'np32'], 'args_form': ['list'], 'fwd': ['defaults', 'named'],
+               'outform': ['list'], 'pdtype': ['float32', 'none'], 'train': [True], 'xview': ['permuted'],
+               'device': ['obj'], 'verbose': [True], 'hyp_form': ['int']}
+XDTYPES = ['float32', 'float64', 'float16', 'int8', 'uint8', 'int64', 'bool']
+ADTYPES = ['int64', 'int32', 'float64', 'float32']
+
+
+def rand_forms(rng, p=0.3):
+    return {k: rng.choice(v) for k, v in FORM_VALUES.items() if rng.random() < p}
 
 
 def make(rng, A, L, n, start, end, bs, mode='raw', tup=None, shapes=None, args=None, target=None,
-         hyp=False, xdtype='float32', zero_cols=False):
+         hyp=False, xdtype='float32', zero_cols=False, forms=None, stream='?'):
     X = [[rng.randrange(A) for _ in range(L)] for _ in range(n)]
     if zero_cols and L > 0:
         X[0][rng.randrange(L)] = -1
@@ -379,50 +542,191 @@ def make(rng, A, L, n, start, end, bs, mode='raw', tup=None, shapes=None, args=N
     if shapes is None:
         shapes = [rand_shape(rng, mode == 'attr') for _ in range(K)]
     inp = {'A': A, 'L': L, 'X': X, 'xdtype': xdtype, 'args': args, 'start': start, 'end': end, 'bs': bs,
-           'tuple': tup, 'shapes': shapes, 'mode': mode, 'target': target, 'hyp': hyp}
+           'tuple': tup, 'shapes': shapes, 'mode': mode, 'target': target, 'hyp': hyp, 'stream': stream}
+    for k, v in (forms or {}).items():
+        if v != FORM_DEFAULTS.get(k):
+            inp[k] = v
     win = window_of(inp)
     base, acoef, comps = draw_net(rng, A, L, X, win, K, shapes, nflat(args), small=(mode == 'attr'))
     inp.update({'base': base, 'acoef': acoef, 'comps': comps})
     return inp
 
 
-def windows(L):
+def neg_end(L, e):
+    return e - (L + 1)
+
+
+def windows(L, both=True):
+    """every 0 <= s < e <= L; both: e written positively and as the equivalent negative end (e = L is -1);
+    otherwise the two spellings alternate and (s, -1) is always included"""
+    k = 0
     for s in range(L):
         for e in range(s + 1, L + 1):
-            yield s, e
-        yield s, -1
+            k += 1
+            if both or k % 2:
+                yield s, e
+            if both or not k % 2:
+                yield s, neg_end(L, e)
+        if not both:
+            yield s, -1
+
+
+def pick_bs(rng, A, L, W, n):
+    bs = rng.choice([1, 2, 3, n, A, W, A * W - 1, A * W, A * W + 1, A * L + 1, rng.randint(1, A * L + 1),
+                     rng.randint(1, A * L + 1), 32, None])
+    return 1 if (bs is not None and bs < 1) else bs
+
+
+def rand_case(rng, stream, forms=None, A=None, L=None, attr=None, tup='rand'):
+    """one in-scope case with everything drawn at random (forms: non-default input forms to use)"""
+    A = A or rng.choice([2, 3, 4, 4, 5])
+    L = L or (rng.choice([1, 2, 3, 4, 5, 7, 9, 12, 16, 20, 25, 30]) if rng.random() < 0.8 else rng.randint(1, 30))
+    n = rng.choice([1, 1, 2, 2, 3])
+    s = rng.choice([0, 0, rng.randrange(L), rng.randrange(L)])
+    e = rng.choice([-1, L, rng.randint(s + 1, L), rng.randint(s + 1, L)])
+    W = (e if e >= 0 else L) - s
+    if e > 0 and rng.random() < 0.25:
+        e = neg_end(L, e)
+    bs = pick_bs(rng, A, L, W, n)
+    wide = forms is not None
+    args = rand_args(rng, n, dtypes=ADTYPES if wide else ('int64', 'float64')) if rng.random() < 0.5 else None
+    if forms and forms.get('fwd') == 'named' and args is None:
+        args = rand_args(rng, n, dtypes=ADTYPES)
+    if forms and forms.get('args_form') == 'list' and args is None:
+        args = rand_args(rng, n, dtypes=ADTYPES)
+    xdtype = rng.choice(XDTYPES if wide else ['float32', 'float32', 'float64', 'int8'])
+    zero = rng.random() < 0.1
+    attr = (rng.random() < 0.4) if attr is None else attr
+    if attr:
+        shapes = [rand_shape(rng, True)]
+        return make(rng, A, L, n, s, e, bs, mode='attr', shapes=shapes, args=args,
+                    target=rand_target(rng, tr_of(shapes[0])[0], forms=wide), hyp=rng.random() < 0.4,
+                    xdtype=xdtype, zero_cols=zero, forms=forms, stream=stream)
+    if tup == 'rand':
+        tup = rng.choice([None, None, 1, 2, 3])
+    if forms and forms.get('outform') == 'list' and tup is None:
+        tup = 2
+    return make(rng, A, L, n, s, e, bs, tup=tup, args=args, xdtype=xdtype, zero_cols=zero, forms=forms,
+                stream=stream)
+
+
+def variants(rng, c0):
+    """c0 with exactly one thing changed (name, changed case); the network is redrawn only where the
+    change makes the old one unusable"""
+    A, L, n = c0['A'], c0['L'], len(c0['X'])
+    W = window_of(c0)
+    s0, e0 = W
+
+    def redraw(c):
+        K = 1 if c['tuple'] is None else c['tuple']
+        base, acoef, comps = draw_net(rng, c['A'], c['L'], c['X'], window_of(c), K, c['shapes'], nflat(c['args']),
+                                      small=(c['mode'] == 'attr'))
+        c.update({'base': base, 'acoef': acoef, 'comps': comps})
+        return c
+    out = []
+    # alphabet size (same window, same length)
+    A2 = rng.choice([a for a in (2, 3, 4, 5) if a != A])
+    c = dict(c0, A=A2, X=[[rng.randrange(A2) for _ in range(L)] for _ in range(n)])
+    out.append(('alphabet', redraw(c)))
+    # length (same start; end kept if it still fits)
+    L2 = L + rng.choice([1, 2])
+    c = dict(c0, L=L2, X=[x + [rng.randrange(A) for _ in range(L2 - L)] for x in c0['X']])
+    out.append(('length', redraw(c)))
+    # window start / end
+    if e0 - s0 > 1:
+        out.append(('start', redraw(dict(c0, start=s0 + 1))))
+        out.append(('end', redraw(dict(c0, end=e0 - 1))))
+    if s0 > 0:
+        out.append(('start-', redraw(dict(c0, start=s0 - 1))))
+    # batch size
+    out.append(('bs', dict(c0, bs=(c0['bs'] or 32) % (A * (e0 - s0) + 1) + 1)))
+    # number of examples
+    c = dict(c0, X=c0['X'] + [[rng.randrange(A) for _ in range(L)]])
+    if c0['args'] is not None:
+        c['args'] = [dict(a, vals=a['vals'] + [a['vals'][0]]) for a in c0['args']]
+    out.append(('examples', redraw(c)))
+    # X content (same shape: the same tensor object is overwritten)
+    out.append(('content', redraw(dict(c0, X=[[rng.randrange(A) for _ in range(L)] for _ in range(n)]))))
+    # X dtype
+    out.append(('xdtype', dict(c0, xdtype=rng.choice([d for d in XDTYPES if d != c0['xdtype']]))))
+    # weights (same network object, new numbers)
+    out.append(('weights', redraw(dict(c0))))
+    # args: values / presence
+    if c0['args'] is not None:
+        c = dict(c0, args=[dict(a, vals=_bump(a['vals'])) for a in c0['args']])
+        out.append(('argvals', c))
+        out.append(('noargs', redraw(dict(c0, args=None))))
+    else:
+        out.append(('withargs', redraw(dict(c0, args=rand_args(rng, n, dtypes=ADTYPES)))))
+    # output container / trailing shape
+    if c0['mode'] == 'raw':
+        if c0['tuple'] is None:
+            out.append(('tuple', redraw(dict(c0, tuple=2, shapes=c0['shapes'] + [rand_shape(rng, False)]))))
+        else:
+            out.append(('tensor', redraw(dict(c0, tuple=None, shapes=c0['shapes'][:1]))))
+        out.append(('shape', redraw(dict(c0, shapes=[rand_shape(rng, False) for _ in c0['shapes']]))))
+        sh = rand_shape(rng, True)
+        out.append(('to-attr', redraw(dict(c0, mode='attr', tuple=None, shapes=[sh],
+                                           target=rand_target(rng, tr_of(sh)[0], True)))))
+    else:
+        T = tr_of(c0['shapes'][0])[0]
+        out.append(('target', dict(c0, target=rand_target(rng, T, True))))
+        out.append(('hyp', dict(c0, hyp=not c0['hyp'])))
+        out.append(('to-raw', redraw(dict(c0, mode='raw'))))
+        sh = rand_shape(rng, True)
+        out.append(('shape', redraw(dict(c0, shapes=[sh], target=rand_target(rng, tr_of(sh)[0], True)))))
+    return out
+
+
+def _bump(v):
+    if isinstance(v, list):
+        return [_bump(x) for x in v]
+    return v + 7
+
+
+def strip(c):
+    return {k: v for k, v in c.items() if k != 'prelude'}
 
 
 def generate(tier, rng):
     quick = tier != 'thorough'
+    # --- 0. (first, so that a state-dependent failure is reported as a self-contained replay) two calls in one process on the same objects, one thing changed between them
+    for _ in range(8 if quick else 30):
+        attr = rng.random() < 0.4
+        c0 = rand_case(rng, 'sequence', forms=rand_forms(rng, 0.1), L=rng.randint(2, 7), attr=attr)
+        for name, c1 in variants(rng, c0):
+            a, b = strip(c0), strip(c1)
+            yield dict(b, prelude=[a], changed=name, stream='sequence')
+            if not quick or rng.random() < 0.3:
+                yield dict(a, prelude=[b], changed=name + '<-', stream='sequence')
+        yield dict(strip(c0), prelude=[strip(c0)], changed='nothing', stream='sequence')
     # --- 1. every window of short sequences, for every alphabet size, tensor / tuple / attribution
     maxL = 6 if quick else 8
     idx = 0
     for L in range(1, maxL + 1):
         for A in (2, 3, 4, 5):
-            for s, e in windows(L):
-                W = (e if e >= 0 else L) - s
+            for s, e in windows(L, both=not quick):
+                W = (e if e >= 0 else L + 1 + e) - s
                 kinds = ['tensor', 'tuple', 'attr'] if not quick else [['tensor', 'tuple', 'attr'][idx % 3]]
                 idx += 1
                 for kind in kinds:
                     n = rng.choice([1, 2, 2, 3])
-                    bs = rng.choice([1, 2, A, W, A * W - 1, A * W, A * W + 1, 32, None])
-                    if bs is not None and bs < 1:
-                        bs = 1
+                    bs = pick_bs(rng, A, L, W, n)
                     args = rand_args(rng, n) if rng.random() < 0.4 else None
                     if kind == 'attr':
                         shapes = [rand_shape(rng, True)]
                         yield make(rng, A, L, n, s, e, bs, mode='attr', shapes=shapes, args=args,
-                                   target=rand_target(rng, tr_of(shapes[0])[0]), hyp=rng.random() < 0.4)
+                                   target=rand_target(rng, tr_of(shapes[0])[0]), hyp=rng.random() < 0.4,
+                                   stream='windows')
                     else:
                         yield make(rng, A, L, n, s, e, bs, tup=(rng.choice([1, 2, 3]) if kind == 'tuple' else None),
-                                   args=args)
+                                   args=args, stream='windows')
     # defaults of start / end / batch_size
     for A in (2, 4):
-        yield make(rng, A, 7, 2, 'default', 'default', None)
-        yield make(rng, A, 9, 2, 'default', 'default', None, tup=2)
-        yield make(rng, A, 7, 2, 3, 'default', None, mode='attr', shapes=[[3]], target=None)
-    # --- 2. every batch size 1..A*W+1 (and the first one above)
+        yield make(rng, A, 7, 2, 'default', 'default', None, stream='defaults')
+        yield make(rng, A, 9, 2, 'default', 'default', None, tup=2, stream='defaults')
+        yield make(rng, A, 7, 2, 3, 'default', None, mode='attr', shapes=[[3]], target=None, stream='defaults')
+    # --- 2. every batch size 1..A*W+2
     confs = [(2, 3, 0, 3), (3, 4, 1, 3), (4, 3, 0, -1)] if quick else \
         [(2, 3, 0, 3), (3, 4, 1, 3), (4, 3, 0, -1), (5, 4, 0, 4), (3, 6, 2, -1), (2, 8, 1, 7), (4, 5, 0, 5)]
     for A, L, s, e in confs:
@@ -430,35 +734,65 @@ def generate(tier, rng):
         for bs in range(1, A * W + 3):
             for tup in (None, 2):
                 n = 2
-                yield make(rng, A, L, n, s, e, bs, tup=tup, args=rand_args(rng, n) if bs % 2 else None)
+                yield make(rng, A, L, n, s, e, bs, tup=tup, args=rand_args(rng, n) if bs % 2 else None,
+                           stream='batch')
             if not quick:
                 yield make(rng, A, L, 2, s, e, bs, mode='attr', shapes=[[2, 2]], args=rand_args(rng, 2),
-                           target=rand_target(rng, 2), hyp=bool(bs % 2))
+                           target=rand_target(rng, 2), hyp=bool(bs % 2), stream='batch')
     # --- 3. random, larger
-    N = 260 if quick else 3000
-    for _ in range(N):
-        A = rng.choice([2, 3, 4, 4, 5])
-        L = rng.choice([1, 2, 3, 4, 5, 7, 9, 12, 16, 20, 25, 30]) if rng.random() < 0.8 else rng.randint(1, 30)
-        n = rng.choice([1, 1, 2, 2, 3])
-        s = rng.choice([0, 0, rng.randrange(L), rng.randrange(L)])
-        e = rng.choice([-1, L, rng.randint(s + 1, L), rng.randint(s + 1, L)])
-        W = (e if e >= 0 else L) - s
-        bs = rng.choice([1, 2, 3, A, W, A * W - 1, A * W, A * W + 1, A * L + 1, rng.randint(1, A * L + 1),
-                         rng.randint(1, A * L + 1), 32, None])
-        if bs is not None and bs < 1:
-            bs = 1
-        args = rand_args(rng, n) if rng.random() < 0.5 else None
-        xdtype = rng.choice(['float32', 'float32', 'float64', 'int8'])
-        zero = rng.random() < 0.1
-        if rng.random() < 0.4:
-            shapes = [rand_shape(rng, True)]
-            yield make(rng, A, L, n, s, e, bs, mode='attr', shapes=shapes, args=args,
-                       target=rand_target(rng, tr_of(shapes[0])[0]), hyp=rng.random() < 0.4,
-                       xdtype=xdtype, zero_cols=zero)
-        else:
-            tup = rng.choice([None, None, 1, 2, 3])
-            yield make(rng, A, L, n, s, e, bs, tup=tup, args=args, xdtype=xdtype, zero_cols=zero)
-    # --- 4. outside the property's scope: only the model's agreement with the code is checked
+    for _ in range(200 if quick else 1500):
+        yield rand_case(rng, 'random')
+    # --- 4. input forms: every non-default form on its own (raw tensor, raw tuple, attribution), then mixed
+    reps = 2 if quick else 4
+    for key, vals in FORM_VALUES.items():
+        for v in vals:
+            for _ in range(reps):
+                for attr, tup in ((False, None), (False, 2), (True, None)):
+                    if key == 'outform' and (attr or tup is None):
+                        continue
+                    yield rand_case(rng, 'forms', forms={key: v}, L=rng.randint(1, 9), attr=attr, tup=tup)
+    for it in ('np64', 'np32'):                  # numpy integers meet every place the window is used
+        for hyp in (False, True):
+            for s_, e_ in ((1, 3), (1, -2), (0, 2), (2, -1)):
+                sh = rand_shape(rng, True)
+                yield make(rng, rng.choice([2, 3, 5]), 4, 2, s_, e_, rng.choice([1, 3, None]), mode='attr', shapes=[sh],
+                           target=rand_target(rng, tr_of(sh)[0], True), hyp=hyp, forms={'itype': it},
+                           args=rand_args(rng, 2) if rng.random() < 0.3 else None, stream='forms')
+            yield make(rng, 3, 4, 2, 1, 3, 2, tup=rng.choice([None, 2]), forms={'itype': it}, stream='forms')
+    for xd in XDTYPES:
+        for attr in (False, True):
+            c = rand_case(rng, 'forms', forms={}, L=rng.randint(1, 9), attr=attr)
+            c['xdtype'] = xd
+            yield c
+    for _ in range(60 if quick else 400):
+        yield rand_case(rng, 'forms', forms=rand_forms(rng), L=rng.randint(1, 12))
+    # --- 5. boundaries of every integer parameter
+    for A in (2, 5) if quick else (2, 3, 4, 5):
+        for L in (1, 2, 5):
+            n = 2
+            wins = {(0, 1), (L - 1, L), (0, L), (0, -L), (L - 1, -1), (0, -1)}
+            for s, e in sorted(wins):
+                W = (e if e >= 0 else L + 1 + e) - s
+                for bs in sorted({1, n, max(1, A * W - 1), A * W, A * W + 1, 10 ** 6}):
+                    yield make(rng, A, L, n, s, e, bs, tup=rng.choice([None, 1, 2]), shapes=None,
+                               args=rand_args(rng, n) if rng.random() < 0.5 else None, stream='bounds')
+    for n in (32, 33, 65):                       # y0 itself is predicted in batches of 32
+        for tup in (None, 2):
+            yield make(rng, 2, 2, n, 0, -1, rng.choice([1, 3, 32, None]), tup=tup, shapes=[[1]] * (tup or 1),
+                       args=rand_args(rng, n, k=1), stream='bounds')
+        yield make(rng, 3, 1, n, 0, 1, 2, mode='attr', shapes=[[2]], args=rand_args(rng, n, k=1), target=1,
+                   stream='bounds')
+    for T in (1, 2, 4):
+        for R in ([], [1], [3]):
+            tg = [None, 0, T - 1, -1, -T, [0, T], [T - 1, T], {'slice': [None, None, None]},
+                  {'slice': [None, None, 2]}, {'slice': [None, None, T]}, {'slice': [0, None, T + 1]},
+                  {'slice': [-1, None, None]}, {'slice': [None, 1, None]}, {'slice': [-T, T, 1]}]
+            for t in tg if not quick else rng.sample(tg, 7):
+                yield make(rng, rng.choice([2, 3, 5]), rng.randint(1, 4), 2, 0, -1, rng.choice([1, 2, 5]),
+                           mode='attr', shapes=[[T] + R], target=t, hyp=rng.random() < 0.5, stream='bounds')
+    yield make(rng, 3, 4, 1, 1, 3, 1, tup=1, shapes=[[1]], stream='bounds')
+    yield make(rng, 3, 4, 1, 1, 3, 1, tup=1, shapes=[[]], stream='bounds')
+    # --- 6. outside the property's scope: only the model's agreement with the code is checked
     M = 40 if quick else 300
     for _ in range(M):
         A = rng.choice([2, 3, 4])
@@ -473,8 +807,10 @@ def generate(tier, rng):
         elif kind == 'empty':
             e = rng.randint(0, L)
             s = rng.randint(e, L + 1)
+            if e > 0 and rng.random() < 0.5:
+                e = neg_end(L, e)
         elif kind == 'negend':
-            s, e = rng.randint(0, L), -rng.randint(2, L + 3)
+            s, e = rng.randint(0, L), -(L + 1) - rng.randint(0, 3)
         elif kind == 'bs':
             bs = rng.choice([0, -1, -5])
         elif kind == 'arglen':
@@ -482,9 +818,9 @@ def generate(tier, rng):
         else:
             mode, tup = 'attr', 2
         if mode == 'attr':
-            yield make(rng, A, L, n, s, e, bs, mode='attr', tup=tup, shapes=[[2], [2]], target=0)
+            yield make(rng, A, L, n, s, e, bs, mode='attr', tup=tup, shapes=[[2], [2]], target=0, stream='outside')
         else:
-            yield make(rng, A, L, n, s, e, bs, tup=tup, args=args)
+            yield make(rng, A, L, n, s, e, bs, tup=tup, args=args, stream='outside')
 
 
 # ----------------------------------------------------------------------------------------
@@ -499,6 +835,13 @@ def _cut_example(inp, i):
 
 
 def shrink(inp):
+    if inp.get('prelude'):
+        yield strip(inp)                       # does it fail without the earlier call?
+    for k in FORM_VALUES:
+        if k in inp:
+            c = dict(inp)
+            del c[k]
+            yield c
     n = len(inp['X'])
     if n > 1:
         for i in range(n):
@@ -511,7 +854,9 @@ def shrink(inp):
     # drop the last position when the window does not need it
     L = inp['L']
     e = inp['end']
-    if L > 1 and isinstance(e, int) and isinstance(inp['start'], int) and (e == -1 or e < L) and inp['start'] < L - 1:
+    if isinstance(e, int) and e < -1 and L + 1 + e > 0:
+        yield dict(inp, end=L + 1 + e)             # the same window, written positively
+    if L > 1 and isinstance(e, int) and isinstance(inp['start'], int) and (e == -1 or 0 <= e < L) and inp['start'] < L - 1:
         c = dict(inp)
         c['L'] = L - 1
         c['X'] = [x[:-1] for x in inp['X']]
@@ -558,9 +903,9 @@ def search(rng, disagreeing):
             yield c
     for A in (2, 3, 5):
         for L in (3, 4, 6):
-            for s, e in windows(L):
+            for s, e in windows(L, both=True):
                 for tup in (None, 2):
                     yield make(rng, A, L, 2, s, e, rng.choice([1, 2, A * L + 1]), tup=tup,
-                               args=rand_args(rng, 2))
+                               args=rand_args(rng, 2), stream='search')
                 yield make(rng, A, L, 2, s, e, 3, mode='attr', shapes=[[2, 2]], target=rand_target(rng, 2),
-                           hyp=rng.random() < 0.5)
+                           hyp=rng.random() < 0.5, stream='search')
